@@ -5,7 +5,7 @@ import hashlib, json, os, re
 import common as c
 
 N = {"quick": 400, "thorough": 40000}
-OPK = ("S", "D", "T", "C", "X", "R", "L", "Q", "P")
+OPK = ("S", "D", "T", "C", "X", "R", "L", "Q", "P", "V")
 
 
 def parse_contents(s):
@@ -205,6 +205,9 @@ def oracle(h, prop):
                 continue
             if res.startswith("panic"):
                 return i, "store query panics: %s" % res[6:70], {"kind": "query-panic", "key_all_ff": set(key) <= set("f"), "prove": prove}
+            if hgt == 0:
+                # "the default height": the store answers for latest-1 when it still has it, else for latest (iavl getHeight)
+                hgt = cur - 1 if (cur - 1) in disk else cur
             have = hgt in disk
             body = res.split(" ")[0]
             if have:
@@ -238,6 +241,26 @@ def oracle(h, prop):
                     return i, "query for the pruned/future height %d returned data" % hgt, {"kind": "data-from-other-height"}
                 if "proof=ok" in res:
                     return i, "query for the pruned/future height %d returned a proof" % hgt, {"kind": "data-from-other-height"}
+        elif k == "V":
+            # CacheMultiStoreWithVersion(ver): the committed content of that version, whatever is pending in the working trees
+            store, key, ver = t[1], t[2], int(t[3])
+            if prop not in ("C12", "C14"):
+                continue
+            body = res.split(" ")[0]
+            if body == "panic":
+                return i, "versioned read panics: %s" % res[6:80], {"kind": "versioned-read-panic"}
+            if ver in disk and ver in committed:
+                exp = committed[ver][store].get(key)
+                if body.startswith("val=") and body != "val=" + str(exp):
+                    return i, "read at version %d returned %s, committed value is %s (%d writes pending in the working trees)" % (ver, body, exp, len(pending)), \
+                        {"kind": "versioned-read-wrong-value", "pending_writes": len(pending) > 0}
+                if body == "none" and exp is not None:
+                    return i, "read at version %d found nothing, committed value is %s (%d writes pending)" % (ver, exp, len(pending)), \
+                        {"kind": "versioned-read-wrong-value", "pending_writes": len(pending) > 0}
+                if body == "noversion" and not policy_changed:
+                    return i, "version %d should be retained but cannot be read" % ver, {"kind": "retained-unreadable"}
+            elif body.startswith("val=") and not policy_changed and ver > top:
+                return i, "read at the future version %d returned data" % ver, {"kind": "data-from-other-height"}
     return None
 
 
